@@ -79,7 +79,7 @@ TIERS = {
             "design": [{"NRxns": 3, "BPal": "z5", "OPal": "first", "Canon": True, "Thm": {"blocked"}}],
             "gens": [("family2x3", {"NRxns": 3, "BPal": "z3", "OPal": "first", "Canon": True}, 1),
                      ("cycle2", {"Topo": "cyc2", "NMets": 2, "NRxns": 4, "BPal": "z3", "OPal": "first"}, 1),
-                     ("walk", {"Mode": "walk", "NMets": 3, "NRxns": 6, "BPal": "z5", "NWalks": 500, "Depth": 6}, 2)],
+                     ("walk", {"Mode": "walk", "NMets": 3, "NRxns": 6, "BPal": "z5", "NWalks": 350, "Depth": 6}, 2)],
         },
         "thorough": {
             "design": [{"NRxns": 3, "BPal": "z5", "OPal": "unit", "Canon": True, "Thm": {"blocked"}}],
